@@ -111,6 +111,15 @@ def bounded_fs_escape(maxlen):
         if e in seen and seen[e] != t:
             return n, {"detail": f"fs_escape maps {seen[e]!r} and {t!r} both to {e!r}", "witness": {"titles": [seen[e], t]}, "class": "collision"}
         seen[e] = t
+    # a character against the text of its own escape code, behind ASCII / non-ASCII prefixes: the pairs an escape
+    # code collides on if a literal '~' (or the code's digits) is not itself escaped
+    for prefix in ("", "a", "\u00c9", "a\u00c9"):
+        for c in ("\u00e9", "\u4e2d", "~", "/", "\\"):
+            for code in (f"~{ord(c)}~", f"~~{ord(c)}~", "~~"):
+                a, b = prefix + c, prefix + code
+                n += 1
+                if a != b and fs_escape("File:" + a) == fs_escape("File:" + b):
+                    return n, {"detail": f"fs_escape maps {a!r} and {b!r} both to {fs_escape('File:' + a)!r}", "witness": {"titles": [a, b]}, "class": "collision"}
     return n, None
 
 
@@ -183,7 +192,7 @@ def bounded_roundtrip(seed, n_archives):
 def bounded(chk):
     n1, f1 = bounded_fs_escape(3 if chk.tier == "quick" else 4)
     chk.bounded_result("fs_escape_injective_on_canonical_titles", n1, n1, True,
-                       "all canonical titles (no edge/double spaces) over {a,B,1,space,-,.,~,ä,中} up to length 3 (quick) / 4 (thorough)",
+                       "all canonical titles (no edge/double spaces) over {a,B,1,space,-,.,~,ä,中} up to length 3 (quick) / 4 (thorough) + every special character against the text of its own escape code behind 4 prefixes",
                        [f1] if f1 else [])
     n2, f2 = bounded_roundtrip(chk.seed, 40 if chk.tier == "quick" else 400)
     chk.bounded_result("write_zip_read_roundtrip", n2, n2, False,
